@@ -68,7 +68,7 @@ fn main() {
             }
         }
         other => {
-            if !gen::special(other, &args[2..], &mut out) {
+            if !gen::special(other, args.get(2..).unwrap_or(&[]), &mut out) {
                 eprintln!("unknown command {other}");
                 std::process::exit(2);
             }
